@@ -32,6 +32,8 @@ func main() {
 		os.Exit(cmdRun(os.Args[2:]))
 	case "check":
 		os.Exit(cmdCheck(os.Args[2:]))
+	case "replay":
+		os.Exit(cmdReplay(os.Args[2:]))
 	default:
 		fmt.Fprintln(os.Stderr, "unknown command", os.Args[1])
 		os.Exit(2)
@@ -51,6 +53,7 @@ func cmdRun(args []string) int {
 	verbose := fs.Bool("v", false, "")
 	var params multiFlag
 	fs.Var(&params, "param", "name=int")
+	dump := fs.String("dump", "", "directory for replay files of the violations found")
 	fs.Parse(args)
 	t0 := time.Now()
 	ld, err := Load(*repo, *hdir, nil)
@@ -109,6 +112,12 @@ func cmdRun(args []string) int {
 	sort.Strings(ids)
 	for _, id := range ids {
 		fmt.Printf("VIOL %s x%d\n", id, ex.ViolCount[id])
+		if *dump != "" {
+			os.MkdirAll(*dump, 0o755)
+			rf := map[string]interface{}{"property": "", "violation": ex.Viol[id][0], "params": cfg.Params}
+			b, _ := json.MarshalIndent(rf, "", " ")
+			os.WriteFile(*dump+"/"+sanitize(id)+".json", b, 0o644)
+		}
 		for _, v := range ex.Viol[id] {
 			b, _ := json.Marshal(v.Case)
 			fmt.Printf("   %s @ %s\n   case=%s\n", v.Detail, v.Where, b)
@@ -126,3 +135,71 @@ func cmdRun(args []string) int {
 	return 0
 }
 
+
+// cmdReplay re-executes a recorded counterexample concretely in the engine (every nondet
+// value fixed to the solver's model) and reports whether the violation shows again.
+func cmdReplay(args []string) int {
+	fs := flag.NewFlagSet("replay", flag.ExitOnError)
+	repo := fs.String("repo", "/repo", "")
+	hdir := fs.String("harness", "/verif/harness", "")
+	trace := fs.Bool("trace", false, "")
+	fs.Parse(args)
+	if fs.NArg() < 1 {
+		fmt.Fprintln(os.Stderr, "usage: gosym replay <replay.json>")
+		return 2
+	}
+	var rf struct {
+		Property  string         `json:"property"`
+		Params    map[string]int `json:"params"`
+		Violation Violation      `json:"violation"`
+	}
+	if err := readJSON(fs.Arg(0), &rf); err != nil {
+		fmt.Fprintln(os.Stderr, err)
+		return 2
+	}
+	ld, err := Load(*repo, *hdir, nil)
+	if err != nil {
+		fmt.Fprintln(os.Stderr, "load error:", err)
+		return 2
+	}
+	e := rf.Violation.Harness
+	i := strings.LastIndex(e, ".")
+	fn := ld.FuncByName(e[:i], e[i+1:])
+	if fn == nil {
+		fmt.Fprintln(os.Stderr, "entry not found:", e)
+		return 2
+	}
+	if rf.Params == nil {
+		rf.Params = map[string]int{}
+	}
+	conc := rf.Violation.Case
+	if conc == nil {
+		conc = []NondetVal{}
+	}
+	cfg := &RunConfig{Unwind: 256, MaxConcretize: 64, Workers: 1, SolverBin: "z3-new", QueryTimeout: 20000, Params: rf.Params, Concrete: conc, Verbose: *trace}
+	ex := NewExplorer(ld, fn, cfg)
+	ex.Run()
+	for _, er := range ex.Errors {
+		fmt.Println("ERROR:", er)
+	}
+	hit := false
+	for id, vs := range ex.Viol {
+		for _, v := range vs {
+			fmt.Printf("REPLAY-VIOLATED %s: %s @ %s\n", id, v.Detail, v.Where)
+			if *trace {
+				for _, t := range v.Trace {
+					fmt.Println("   trace:", t)
+				}
+			}
+		}
+		if id == rf.Violation.ID {
+			hit = true
+		}
+	}
+	if hit {
+		fmt.Printf("reproduced: %s\n", rf.Violation.ID)
+		return 1
+	}
+	fmt.Println("not reproduced")
+	return 0
+}
